@@ -27,7 +27,8 @@ CONSTANTS
   DevNoLtReset,      \* lifetime counter not reset while publish requests are being served
   DevDropOnNone,     \* collected notification discarded when the action is None
   DevPrioAsc,        \* lowest priority served first
-  DevExpirePanic     \* row 27 with a freshly collected notification panics
+  DevExpirePanic,    \* row 27 with a freshly collected notification panics
+  DevNegPanic        \* a clock that moves backwards / a request timestamp in the future panics
 
 NoVal == -1
 
@@ -53,18 +54,22 @@ Enq(it, v) ==
   IN [it EXCEPT !.q = Append(q0, <<v, IF ovf THEN 1 ELSE 0>>)]
 
 \* check_value / check_for_data_change with no filter
-CheckValue(it, resend) ==
+CheckValue(it, resend, t) ==
   LET cur == nodeVal[it.node]
       chg == resend \/ it.last = NoVal \/ cur # it.last
-  IN [it |-> IF chg THEN [Enq(it, cur) EXCEPT !.last = cur] ELSE it, chg |-> chg]
+      it1 == [it EXCEPT !.lastS = t]
+  IN [it |-> IF chg THEN [Enq(it1, cur) EXCEPT !.last = cur] ELSE it1, chg |-> chg]
 
 \* MonitoredItem::tick -> "report" | "changed" | "none"
-ItemTick(it, elapsed, resend) ==
+\* A requested sampling interval of 0 is revised to the server minimum (0.1 clock units): with integer
+\* clocks the item samples when at least one unit has passed -- or when the clock moved backwards.
+ItemTick(it, elapsed, resend, t) ==
   IF it.mode = "Disabled" THEN [it |-> it, res |-> "none"]
-  ELSE LET check == resend \/ (it.samp < 0 /\ elapsed) \/ it.samp = 0 IN
+  ELSE LET need  == IF it.samp = 0 THEN 1 ELSE it.samp
+           check == resend \/ (it.samp < 0 /\ elapsed) \/ (it.samp >= 0 /\ (t - it.lastS >= need \/ t < it.lastS)) IN
        IF ~check THEN [it |-> it, res |-> "none"]
        ELSE LET first == it.last = NoVal
-                cv == CheckValue(it, resend)
+                cv == CheckValue(it, resend, t)
                 changed == first \/ cv.chg \/ cv.it.q # <<>>
             IN [it |-> cv.it,
                 res |-> IF ~changed THEN "none"
@@ -72,18 +77,18 @@ ItemTick(it, elapsed, resend) ==
 
 \* tick_monitored_items: returns the items afterwards and the collected values
 \* vals = sequence (ordered by item id) of <<item, <<<<v, ovf>>, ...>>>>
-RECURSIVE TickItemsRec(_, _, _, _, _)
-TickItemsRec(items, order, elapsed, resend, acc) ==
+RECURSIVE TickItemsRec(_, _, _, _, _, _)
+TickItemsRec(items, order, elapsed, resend, acc, t) ==
   IF order = <<>> THEN [items |-> items, vals |-> acc]
   ELSE LET i == Head(order)
-           r == ItemTick(items[i], elapsed, resend)
+           r == ItemTick(items[i], elapsed, resend, t)
            take == r.res = "report" /\ elapsed /\ r.it.q # <<>>
            it2 == IF take THEN [r.it EXCEPT !.q = <<>>] ELSE r.it
            acc2 == IF take THEN Append(acc, <<i, r.it.q>>) ELSE acc
-       IN TickItemsRec([items EXCEPT ![i] = it2], Tail(order), elapsed, resend, acc2)
+       IN TickItemsRec([items EXCEPT ![i] = it2], Tail(order), elapsed, resend, acc2, t)
 
-TickItems(items, elapsed, resend) ==
-  TickItemsRec(items, SetToSortSeq(DOMAIN items, <), elapsed, resend, <<>>)
+TickItems(items, elapsed, resend, t) ==
+  TickItemsRec(items, SetToSortSeq(DOMAIN items, <), elapsed, resend, <<>>, t)
 
 -----------------------------------------------------------------------------
 (* Subscription::update_state -- OPC UA Part 4, 5.13.1.2, rows in code order *)
@@ -139,9 +144,11 @@ Update(s0, reason, p) ==
 SubTick(s, reason, queued, t) ==
   LET isTimer == reason = "timer"
       elapsed == isTimer /\ (s.st = "Creating" \/ t - s.lastEl >= s.itv)
-      lastEl1 == IF isTimer /\ s.st # "Creating" /\ t - s.lastEl >= s.itv THEN t ELSE s.lastEl
+      \* test_and_set_publishing_interval_elapsed: a clock that moved backwards re-anchors the interval
+      neg     == isTimer /\ s.st # "Creating" /\ t < s.lastEl
+      lastEl1 == IF isTimer /\ s.st # "Creating" /\ (t - s.lastEl >= s.itv \/ neg) THEN t ELSE s.lastEl
       ti  == IF s.st \in {"Closed", "Creating"} THEN [items |-> s.items, vals |-> <<>>]
-             ELSE TickItems(s.items, elapsed, s.resend)
+             ELSE TickItems(s.items, elapsed, s.resend, t)
       hasN == ti.vals # <<>>
       notif == [k |-> "DATA", seq |-> s.seq, vals |-> ti.vals]
       seq1 == IF hasN THEN s.seq + 1 ELSE s.seq
@@ -155,6 +162,7 @@ SubTick(s, reason, queued, t) ==
              ELSE [s |-> s0, act |-> "None", row |-> 0]
       u   == r.s
   IN
+  IF neg /\ DevNegPanic THEN [s |-> s, fail |-> TRUE] ELSE
   CASE r.act = "None" ->
          IF hasN /\ (DevDropOnNone \/ ~u.en)
          THEN [s |-> [u EXCEPT !.seq = notif.seq], fail |-> FALSE]              \* discarded, number re-used
@@ -293,7 +301,7 @@ CreateItem(id, i, n, qsize, dold, mode, samp) ==
   /\ id \in DOMAIN subs
   /\ i \notin DOMAIN subs[id].items
   /\ LET it == [node |-> n, mode |-> mode, samp |-> samp, qsize |-> qsize, dold |-> dold,
-                q |-> <<>>, last |-> NoVal]
+                q |-> <<>>, last |-> NoVal, lastS |-> now]
          its == [x \in DOMAIN subs[id].items \cup {i} |-> IF x = i THEN it ELSE subs[id].items[x]]
      IN subs' = [subs EXCEPT ![id].items = its, ![id].lt = subs[id].maxLT]
   /\ UNCHANGED <<reqs, retx, respq, nodeVal, now>>
@@ -371,7 +379,7 @@ TimerTick(t) ==
       base == [ev |-> "Tick", t |-> t, pre |-> respq]
   IN /\ now' = t
      /\ respq' = <<>>
-     /\ IF r.fail
+     /\ IF r.fail \/ (DevNegPanic /\ \E j \in 1..Len(reqs) : t < reqs[j].ts)
         THEN /\ UNCHANGED <<subs, reqs, retx, nodeVal>>
              /\ evt' = base @@ [fail |-> "panic", out |-> <<>>, st |-> P]
         ELSE /\ subs' = r.subs /\ reqs' = r.reqs /\ retx' = r.retx
